@@ -131,6 +131,21 @@ example :
          (9, [[0x61], [0x7B], [0x7D]], .accepted), (2, [[0x7B], [0x7D]], .rejected)] := by
   decide
 
+/-- The recorded finding `collapse-reload-boundary` as a theorem about the model: symbol atoms, a DDEND
+line that starts with the continuation bytes `80 A8`, and a verdict sequence under which `}y\n` is
+deleted (leaving the lead byte `E2` in front of the DDEND line) before a brace pair collapses.  The
+re-load of the collapsed text splits at the new U+2028, the first two bytes of the protected suffix
+become reducible and are deleted: the final file no longer ends with the original suffix. -/
+theorem C05_collapse_reload_counterexample :
+    let data : Bytes := [0x2f,0x2f,0x20,0x44,0x44,0x42,0x45,0x47,0x49,0x4e,0x0a,0x67,0x7b,0x0a,0x5a,0x3b,0x0a,0x7d,0x78,0xe2,
+      0x7d,0x79,0x0a,0x80,0xa8,0x20,0x44,0x44,0x45,0x4e,0x44,0x0a,0x74,0x61,0x69,0x6c,0x0a]
+    let vs : List Bool := [false,false,false,false,false,true,false,true,false,false,true,false,true,true,true]
+    let reload : Bytes → Option Testcase := fun d => (loadSymbol DEFAULT_CUT_BEFORE DEFAULT_CUT_AFTER d).toOption
+    (reload data).map (fun t => (t.after, (collapse reload {} (fun k _ => vs.getD k false) (fun _ => 0) t).best.after))
+      = some ([0x80,0xa8,0x20,0x44,0x44,0x45,0x4e,0x44,0x0a,0x74,0x61,0x69,0x6c,0x0a],
+              [0x20,0x44,0x44,0x45,0x4e,0x44,0x0a,0x74,0x61,0x69,0x6c,0x0a]) := by
+  decide +kernel
+
 /-- non-vacuity: a char-mode file with markers and a CR before the DDEND line -/
 example :
     (loadChar ([0x68, 0x0A] ++ DDBEGIN ++ [0x0A, 0x61, 0x62, 0x0D] ++ DDEND ++ [0x0A, 0x74])).toOption.map
